@@ -4,7 +4,7 @@
   The source manager enters as its table `s` (it is only read: `copyBdd` runs in the monad of
   the TARGET manager and has no way to write to `s`); the target is any manager with `Inv`
   (whatever nodes, computed-table entries and variable order it already has), reordering not
-  enabled (`lastLen = none`).  `denN t u` is the value of `u` as a function of variable names.
+  enabled (`lastLen = none`).  `denName t u` is the value of `u` as a function of variable names.
 -/
 import DDProofs.Witness
 namespace DD
@@ -33,8 +33,8 @@ theorem C11_copyBddF (s : Tbl) (hS : WF s) (lm : List (Nat × Nat)) (fu : Nat) (
 target already holds, if every variable of the support of `u` is declared in the target then
 the copy succeeds and denotes the same function of the same-named variables; the target keeps
 its invariant (hence stays canonical), its existing nodes and its variables. -/
-theorem C11_copyBdd (s : Tbl) (hS : WFU s) (hVs : VarsOK s) (m : Mgr) (hI : Inv m)
-    (hoff : m.lastLen = none) (hVm : VarsOK m.tbl) (u : Int) (hu : s.Mem u)
+theorem C11_copyBdd (s : Tbl) (hS : WFU s) (hVs : VarsBij s) (m : Mgr) (hI : Inv m)
+    (hoff : m.lastLen = none) (hVm : VarsBij m.tbl) (u : Int) (hu : s.Mem u)
     (hsup : ∀ i v, InSupp s u i → s.l2v[i]? = some v → m.tbl.vars.contains v = true) :
     ∃ r m', copyBdd s u m = (.ok r, m') ∧ Inv m' ∧ Ext m.tbl m'.tbl ∧ m'.tbl.Mem r ∧
       Frame m m' ∧ (0 < r ↔ 0 < u) ∧
@@ -45,28 +45,28 @@ theorem C11_copyBdd (s : Tbl) (hS : WFU s) (hVs : VarsOK s) (m : Mgr) (hI : Inv 
     copyBdd_spec s hS.toWF hVs m hI hoff hVm u hu hsup
   exact ⟨r, m', h1, h2, h3, h4, h5, h6, fun a => congrFun h7 a⟩
 
-/-- C11 in the `denN` vocabulary -/
-theorem C11_copyBdd_denN (s : Tbl) (hS : WFU s) (hVs : VarsOK s) (m : Mgr) (hI : Inv m)
-    (hoff : m.lastLen = none) (hVm : VarsOK m.tbl) (u : Int) (hu : s.Mem u)
+/-- C11 in the `denName` vocabulary -/
+theorem C11_copyBdd_denN (s : Tbl) (hS : WFU s) (hVs : VarsBij s) (m : Mgr) (hI : Inv m)
+    (hoff : m.lastLen = none) (hVm : VarsBij m.tbl) (u : Int) (hu : s.Mem u)
     (hsup : ∀ i v, InSupp s u i → s.l2v[i]? = some v → m.tbl.vars.contains v = true) :
-    ∃ r m', copyBdd s u m = (.ok r, m') ∧ denN m'.tbl r = denN s u := by
+    ∃ r m', copyBdd s u m = (.ok r, m') ∧ denName m'.tbl r = denName s u := by
   obtain ⟨r, m', h1, _, _, _, _, _, h7⟩ := copyBdd_spec s hS.toWF hVs m hI hoff hVm u hu hsup
   exact ⟨r, m', h1, h7⟩
 
 /-- C11 (the target stays canonical after the copy; its variables are the same): two references
 of the target after the copy denote the same function iff they are equal -/
-theorem C11_target_canonical (s : Tbl) (hS : WFU s) (hVs : VarsOK s) (m : Mgr) (hI : Inv m)
-    (hoff : m.lastLen = none) (hVm : VarsOK m.tbl) (u : Int) (hu : s.Mem u)
+theorem C11_target_canonical (s : Tbl) (hS : WFU s) (hVs : VarsBij s) (m : Mgr) (hI : Inv m)
+    (hoff : m.lastLen = none) (hVm : VarsBij m.tbl) (u : Int) (hu : s.Mem u)
     (hsup : ∀ i v, InSupp s u i → s.l2v[i]? = some v → m.tbl.vars.contains v = true) :
-    ∃ r m', copyBdd s u m = (.ok r, m') ∧ VarsOK m'.tbl ∧
+    ∃ r m', copyBdd s u m = (.ok r, m') ∧ VarsBij m'.tbl ∧
       ∀ x y, m'.tbl.Mem x → m'.tbl.Mem y → ((∀ a, den m'.tbl x a = den m'.tbl y a) ↔ x = y) := by
   obtain ⟨r, m', h1, h2, _, _, h5, _, _⟩ := copyBdd_spec s hS.toWF hVs m hI hoff hVm u hu hsup
   exact ⟨r, m', h1, hVm.frame h5, fun x y hx hy => canonical m'.tbl h2.wf x y hx hy⟩
 
 /-- C11 (copying twice gives the same reference: the second copy finds the nodes of the
 first) — a consequence of canonicity of the target -/
-theorem C11_copy_twice (s : Tbl) (hS : WFU s) (hVs : VarsOK s) (m : Mgr) (hI : Inv m)
-    (hoff : m.lastLen = none) (hVm : VarsOK m.tbl) (u : Int) (hu : s.Mem u)
+theorem C11_copy_twice (s : Tbl) (hS : WFU s) (hVs : VarsBij s) (m : Mgr) (hI : Inv m)
+    (hoff : m.lastLen = none) (hVm : VarsBij m.tbl) (u : Int) (hu : s.Mem u)
     (hsup : ∀ i v, InSupp s u i → s.l2v[i]? = some v → m.tbl.vars.contains v = true) :
     ∃ r m' m'', copyBdd s u m = (.ok r, m') ∧ copyBdd s u m' = (.ok r, m'') := by
   obtain ⟨r, m', h1, h2, h3, h4, h5, _, h7⟩ := copyBdd_spec s hS.toWF hVs m hI hoff hVm u hu hsup
@@ -91,8 +91,8 @@ theorem C11_copy_twice (s : Tbl) (hS : WFU s) (hVs : VarsOK s) (m : Mgr) (hI : I
     have e2 : den m''.tbl r a = den m''.tbl r (nameAsg m''.tbl an) :=
       den_agree_ge m''.tbl g2.wf.toWF r (g3.mem h4) _ _ (fun i _ hi => (hna i hi).symm)
     rw [e1, e2]
-    have k1 : den m''.tbl r' (nameAsg m''.tbl an) = denN s u an := congrFun g7 an
-    have k2 : den m'.tbl r (nameAsg m'.tbl an) = denN s u an := congrFun h7 an
+    have k1 : den m''.tbl r' (nameAsg m''.tbl an) = denName s u an := congrFun g7 an
+    have k2 : den m'.tbl r (nameAsg m'.tbl an) = denName s u an := congrFun h7 an
     rw [k1, ← k2, den_ext g3 h2.wf.toWF r _ h4]
     have : nameAsg m''.tbl an = nameAsg m'.tbl an := by
       funext i; simp [nameAsg, g5.l2v]
@@ -102,8 +102,8 @@ theorem C11_copy_twice (s : Tbl) (hS : WFU s) (hVs : VarsOK s) (m : Mgr) (hI : I
 
 /-- non-vacuity: the hypotheses are met by a source holding the variable `x` with its node and
 a target declaring `x` (here the same table serves as source and as target manager) -/
-example : ∃ (s : Tbl) (m : Mgr) (u : Int), WFU s ∧ VarsOK s ∧ Inv m ∧ m.lastLen = none ∧
-    VarsOK m.tbl ∧ s.Mem u ∧ u.natAbs ≠ 1 ∧
+example : ∃ (s : Tbl) (m : Mgr) (u : Int), WFU s ∧ VarsBij s ∧ Inv m ∧ m.lastLen = none ∧
+    VarsBij m.tbl ∧ s.Mem u ∧ u.natAbs ≠ 1 ∧
     (∀ i v, InSupp s u i → s.l2v[i]? = some v → m.tbl.vars.contains v = true) := by
   obtain ⟨m, u, hI, hoff, hV, hu, hx, hn, hd, _⟩ := witness
   refine ⟨m.tbl, m, u, hI.wf, hV, hI, hoff, hV, hu, ?_, ?_⟩
